@@ -212,6 +212,16 @@ def expect_reject(fa, res, original, variant, label, seen):
     try:
         fa.parse_schema(copy.deepcopy(variant))
     except (SchemaParseException, UnknownType):
+        # the same verdict when the caller asks for the expanded form
+        for how, fn in (("expand=True", lambda: fa.parse_schema(copy.deepcopy(variant), expand=True)), ("expand_schema", lambda: fa.schema.expand_schema(copy.deepcopy(variant)))):
+            try:
+                fn()
+            except (SchemaParseException, UnknownType):
+                continue
+            except Exception as e:
+                res.add(Violation("c11.reject", f"wrong-exception:{label}:{type(e).__name__}:{how}", f"ill-formed schema ({label}) under {how} raised {type(e).__name__}: {e} | {short(variant, 400)}", info))
+                continue
+            res.add(Violation("c11.reject", f"ill-formed-accepted:{label}:{how}", f"ill-formed schema ({label}) is rejected by parse_schema but accepted under {how} | {short(variant, 500)}", info))
         return
     except Exception as e:
         res.add(Violation("c11.reject", f"wrong-exception:{label}:{type(e).__name__}", f"ill-formed schema ({label}) raised {type(e).__name__}: {e} instead of a schema-parse/unknown-type error | {short(variant, 400)}", info))
@@ -361,6 +371,12 @@ def run_unit(u, tier):
             ("dotted-name-beats-namespace-attribute-nested", {"type": "record", "name": "Top", "namespace": "t", "fields": [
                 {"name": "o", "type": {"type": "record", "name": "com.acme.Order", "namespace": "legacy", "fields": [{"name": "f", "type": {"type": "fixed", "name": "Id", "size": 2}}]}},
                 {"name": "i", "type": "com.acme.Id"}]}),
+            ("enum-300-symbols", {"type": "enum", "name": "Many", "symbols": ["S%d" % i for i in range(300)]}),
+            ("enum-256-symbols", R({"type": "enum", "name": "Many", "symbols": ["S%d" % i for i in range(256)]})),
+            ("enum-257-symbols", R({"type": "enum", "name": "Many", "symbols": ["S%d" % i for i in range(257)]})),
+            ("enum-1000-symbols-with-default", {"type": "enum", "name": "Many", "symbols": ["S%d" % i for i in range(1000)], "default": "S999"}),
+            ("record-300-fields", {"type": "record", "name": "Wide", "fields": [{"name": "f%d" % i, "type": "int"} for i in range(300)]}),
+            ("union-300-named-branches", [{"type": "fixed", "name": "Fx%d" % i, "size": 1} for i in range(300)]),
             ("same-short-name-two-namespaces", R({"type": "fixed", "name": "a.F", "size": 1}, {"type": "fixed", "name": "b.F", "size": 2})),
         ]:
             expect_accept(fa, res, s, lab, seen)
